@@ -215,6 +215,14 @@ func (d *Dialer) dial() (*DialContext, error) {
 	if d.mode == Advertise {
 		restore, err = d.setAutoconf()
 		if err != nil {
+			// Don't leak the listener when the interface cannot be prepared.
+			if lerr := conn.LeaveGroup(netip.IPv6LinkLocalAllRouters()); lerr != nil {
+				d.logf("failed to leave IPv6 link-local all routers multicast group: %v", lerr)
+			}
+			if cerr := conn.Close(); cerr != nil {
+				d.logf("failed to stop NDP listener: %v", cerr)
+			}
+
 			return nil, err
 		}
 	}
